@@ -94,6 +94,8 @@ def run(chk):
     chk.rule("bond-index", "the kept-count limit looked up for a truncation is the limit of the bond being truncated (explicit list and configuration path agree)", 6)
     from .C05 import bond_index_rule
     bond_index_rule(chk, src, "bond-index")
+    from .C06 import sweep_centre_rule
+    sweep_centre_rule(chk, src)
     # ---- pass-through of full_matrices inside svd_qn
     sq = src.func("renormalizer/mps/svd_qn.py", "svd_qn")
     modes = [unparse(n.value).replace(" ", "") for n in ast.walk(sq.node) if isinstance(n, ast.Assign) and unparse(n.targets[0]) == "mode"]
